@@ -5,7 +5,6 @@ import (
 
 	"github.com/goose-lang/primitive/disk"
 
-	"github.com/mit-pdos/go-journal/buf"
 	"github.com/mit-pdos/go-journal/common"
 	"github.com/mit-pdos/go-journal/obj"
 	"github.com/mit-pdos/go-journal/util"
@@ -87,6 +86,10 @@ func (nfs *Nfs) makeRootDir() {
 	if ip == nil {
 		panic("makeRootDir")
 	}
+	// The root inode (whose kind marks the file system as present)
+	// becomes visible atomically with its directory entries.
+	ip.InitInode(common.ROOTINUM, nfstypes.NF3DIR)
+	ip.WriteInode(op.Atxn)
 	dir.MkRootDir(ip, op)
 	ok := op.Commit()
 	if !ok {
@@ -94,16 +97,9 @@ func (nfs *Nfs) makeRootDir() {
 	}
 }
 
-// Make an empty file system
+// Make an empty file system; makeRootDir makes the root inode.
 func makeFs(super *super.FsSuper) {
 	util.DPrintf(1, "mkfs")
-
-	root := inode.MkRootInode()
-	util.DPrintf(1, "root %v\n", root)
-	raddr := super.Inum2Addr(common.ROOTINUM)
-	rootblk := root.Encode()
-	rootbuf := buf.MkBuf(raddr, common.INODESZ*8, rootblk)
-	rootbuf.WriteDirect(super.Disk)
 
 	markAlloc(super, super.DataStart(), super.MaxBnum())
 }
